@@ -169,9 +169,9 @@ func init() {
 		DevBound:      func(string) int { return 1 },
 		CapSeconds: func(tier string) int {
 			if tier == "thorough" {
-				return 2400
+				return 3600
 			}
-			return 150
+			return 300
 		},
 		Init: func(r *core.Run) {
 			c09Init()
